@@ -76,6 +76,36 @@ def build(params, ret, ARR, tc, style="function", order=None, category="Float", 
         fn = g["f"]
         fn.__module__ = "verif_generated"
         out = jt.jaxtyped(typechecker=typechecker(tc))(fn)
+    elif style == "varargs-kw":
+        # ..., *p[n-2] (annotated, receives one array), p[n-1] keyword-only
+        parts = [f"{pnames[i]}{ann(i)}" for i in order[:-2]] + [f"*{pnames[order[-2]]}{ann(order[-2])}",
+                                                               f"{pnames[order[-1]]}{ann(order[-1])}"]
+        src = f"def f({', '.join(parts)}){' -> R' if ret is not None else ''}:\n    return _body()\n"
+        exec(src, g)
+        fn = g["f"]
+        fn.__module__ = "verif_generated"
+        out = jt.jaxtyped(typechecker=typechecker(tc))(fn)
+    elif style == "kwonly":
+        # every parameter keyword-only (defaults, where given, precede required ones freely)
+        args = ", ".join(f"{pnames[i]}{ann(i)}" for i in order)
+        src = f"def f(*, {args}){' -> R' if ret is not None else ''}:\n    return _body()\n"
+        exec(src, g)
+        fn = g["f"]
+        fn.__module__ = "verif_generated"
+        out = jt.jaxtyped(typechecker=typechecker(tc))(fn)
+    elif style == "dataclass-derived":
+        # the first field lives in a jaxtyped base dataclass, the others in a jaxtyped subclass
+        f0 = f"    {pnames[order[0]]}{ann(order[0]) or ': object'}"
+        rest = "\n".join(f"    {pnames[i]}{ann(i) or ': object'}" for i in order[1:]) or "    pass"
+        src = f"@dataclasses.dataclass\nclass Base:\n{f0}\n"
+        exec(src, g)
+        g["Base"].__module__ = "verif_generated"
+        g["Base"] = jt.jaxtyped(typechecker=typechecker(tc))(g["Base"])
+        src = f"@dataclasses.dataclass\nclass f(Base):\n{rest}\n"
+        exec(src, g)
+        cls = g["f"]
+        cls.__module__ = "verif_generated"
+        out = jt.jaxtyped(typechecker=typechecker(tc))(cls)
     elif style == "dataclass":
         fields = "\n".join(f"    {pnames[i]}{ann(i) or ': object'}" for i in order)
         src = f"@dataclasses.dataclass\nclass f:\n{fields}\n"
@@ -105,6 +135,8 @@ def call(fn, pnames, values, how="pos"):
     try:
         if how == "pos":
             r = fn(*values)
+        elif how == "pos+kwlast":
+            r = fn(*values[:-1], **{pnames[-1]: values[-1]})
         else:
             r = fn(**dict(zip(pnames, values)))
         return "OK", r
